@@ -43,6 +43,7 @@ import (
 
 	"github.com/flynn/noise"
 	"github.com/rcrowley/go-metrics"
+	"github.com/slackhq/nebula/handshake"
 	"github.com/slackhq/nebula/header"
 	"github.com/slackhq/nebula/noiseutil"
 	"github.com/slackhq/nebula/overlay/batch"
@@ -98,13 +99,32 @@ func (k *c13Keys) nonce(c uint64) []byte {
 	return nb
 }
 
-func (k *c13Keys) cipherState() noiseutil.CipherState {
+func (k *c13Keys) noiseState() (*noise.CipherState, noise.CipherFunc) {
 	cf := noiseutil.CipherAESGCM // the FIPS AEAD when GODEBUG=fips140=on
 	if k.chacha {
 		cf = noise.CipherChaChaPoly
 	}
-	s := noise.UnsafeNewCipherState(noise.NewCipherSuite(noise.DH25519, cf, noise.HashSHA256), k.key, 0)
-	return noiseutil.NewCipherState(s, cf)
+	return noise.UnsafeNewCipherState(noise.NewCipherSuite(noise.DH25519, cf, noise.HashSHA256), k.key, 0), cf
+}
+
+// connState builds the tunnel state. hsIndex >= 0: through the real constructor from a handshake
+// result that consumed hsIndex messages (start is ignored); otherwise a state whose counter was
+// advanced to start by earlier traffic. The gate is put around the real eKey.
+func (k *c13Keys) connState(g *c13Gate, start uint64, hsIndex int) *ConnectionState {
+	s, cf := k.noiseState()
+	if hsIndex >= 0 {
+		d, _ := k.noiseState()
+		ci, err := newConnectionStateFromResult(&handshake.Result{EKey: s, DKey: d, Cipher: cf, MessageIndex: uint64(hsIndex), Initiator: true})
+		if err != nil {
+			panic(err)
+		}
+		g.inner, ci.eKey = ci.eKey, g
+		return ci
+	}
+	g.inner = noiseutil.NewCipherState(s, cf)
+	ci := &ConnectionState{eKey: g, window: NewBits(ReplayWindow)}
+	ci.messageCounter.Store(start)
+	return ci
 }
 
 // ---- recording / gated cipher -------------------------------------------------------------------
@@ -267,18 +287,17 @@ type c13World struct {
 	directRemote netip.AddrPort
 }
 
-func c13NewWorld(chacha bool, startA, startT uint64, workers int, park bool) *c13World {
+func c13NewWorld(chacha bool, sA, sT c13Start, workers int, park bool) *c13World {
+	startA, startT := sA.v, sT.v
 	l := slog.New(slog.DiscardHandler)
 	w := &c13World{startA: startA, startT: startT}
 	w.h = &c13H{ids: map[*byte]int{}, park: park, ev: make(chan c13Event, 64*workers+64), release: make([]chan struct{}, workers),
 		yield: make([][]uint8, workers), ypos: make([]int, workers)}
 	w.kA, w.kT = c13NewKeys(chacha, 0x21), c13NewKeys(chacha, 0x9d)
-	w.gA = &c13Gate{h: w.h, key: "A", inner: w.kA.cipherState()}
-	w.gT = &c13Gate{h: w.h, key: "T", inner: w.kT.cipherState()}
-	w.ciA = &ConnectionState{eKey: w.gA, window: NewBits(ReplayWindow)}
-	w.ciT = &ConnectionState{eKey: w.gT, window: NewBits(ReplayWindow)}
-	w.ciA.messageCounter.Store(startA)
-	w.ciT.messageCounter.Store(startT)
+	w.gA = &c13Gate{h: w.h, key: "A"}
+	w.gT = &c13Gate{h: w.h, key: "T"}
+	w.ciA = w.kA.connState(w.gA, startA, sA.hs)
+	w.ciT = w.kT.connState(w.gT, startT, sT.hs)
 
 	addrA, addrT := netip.MustParseAddr("10.13.0.2"), netip.MustParseAddr("10.13.0.3")
 	newRS := func() RelayState {
@@ -551,26 +570,37 @@ func c13Demand(ops []c13Op) (a, t uint64) {
 	return
 }
 
-func c13DrawStart(rt *rapid.T, label string, demand uint64) (uint64, string) {
+// c13Start is the counter state a tunnel starts the run with: v = highest counter consumed so far;
+// hs >= 0 means the state comes straight out of newConnectionStateFromResult after a handshake of
+// hs messages (then v == hs).
+type c13Start struct {
+	v   uint64
+	hs  int
+	cls string
+}
+
+func c13DrawStart(rt *rapid.T, label string, demand uint64) c13Start {
 	cls := rapid.SampledFrom([]string{"handshake", "mid", "rehandshake", "below-ceiling", "below-ceiling", "below-ceiling", "at-ceiling", "past-ceiling"}).Draw(rt, label+"Class")
+	st := c13Start{hs: -1, cls: cls}
 	switch cls {
 	case "handshake":
-		return 2, cls
+		st.hs = rapid.SampledFrom([]int{2, 2, 3, 5}).Draw(rt, label+"HsMessages") // IX has 2 messages
+		st.v = uint64(st.hs)
 	case "mid":
-		return rapid.SampledFrom([]uint64{3, 1000, 1 << 20, 1<<32 - 1, 1 << 40}).Draw(rt, label), cls
+		st.v = rapid.SampledFrom([]uint64{3, 1000, 1 << 20, 1<<32 - 1, 1 << 40}).Draw(rt, label)
 	case "rehandshake":
-		return RehandshakeAfterMessages - 3 + uint64(rapid.IntRange(0, 6).Draw(rt, label)), cls
+		st.v = RehandshakeAfterMessages - 3 + uint64(rapid.IntRange(0, 6).Draw(rt, label))
 	case "below-ceiling":
 		// the ceiling is crossed somewhere inside the run (k reservations still fit)
-		k := rapid.Uint64Range(0, demand+2).Draw(rt, label)
-		return RejectAfterMessages - 1 - k, cls
+		st.v = RejectAfterMessages - 1 - rapid.Uint64Range(0, demand+2).Draw(rt, label)
 	case "at-ceiling":
-		return RejectAfterMessages, cls
+		st.v = RejectAfterMessages
 	default:
 		// only values the hot path can reach between two pins of NextMessageCounter are searched;
 		// the 2^40 head-room itself is not exhausted
-		return RejectAfterMessages + 1 + rapid.Uint64Range(0, 64).Draw(rt, label), cls
+		st.v = RejectAfterMessages + 1 + rapid.Uint64Range(0, 64).Draw(rt, label)
 	}
+	return st
 }
 
 // c13SetLock sets noiseutil.EncryptLockNeeded for one case (it is fixed to true under FIPS).
@@ -612,9 +642,9 @@ func TestC13_Schedules(t *testing.T) {
 			ops[i] = c13DrawOp(rt)
 		}
 		dA, dT := c13Demand(ops)
-		startA, clsA := c13DrawStart(rt, "startA", dA)
-		startT, clsT := c13DrawStart(rt, "startT", dT)
-		w := c13NewWorld(chacha, startA, startT, n, true)
+		sA, sT := c13DrawStart(rt, "startA", dA), c13DrawStart(rt, "startT", dT)
+		startA, clsA, startT, clsT := sA.v, sA.cls, sT.v, sT.cls
+		w := c13NewWorld(chacha, sA, sT, n, true)
 
 		state := make([]int, n)
 		want := make([]string, n)      // lock the sender heads for while contending
@@ -970,9 +1000,9 @@ func TestC13_Parallel(t *testing.T) {
 			}
 		}
 		dA, dT := c13Demand(all)
-		startA, clsA := c13DrawStart(rt, "startA", dA)
-		startT, clsT := c13DrawStart(rt, "startT", dT)
-		w := c13NewWorld(chacha, startA, startT, n, false)
+		sA, sT := c13DrawStart(rt, "startA", dA), c13DrawStart(rt, "startT", dT)
+		startA, clsA, startT, clsT := sA.v, sA.cls, sT.v, sT.cls
+		w := c13NewWorld(chacha, sA, sT, n, false)
 		for i := 0; i < n; i++ {
 			w.h.yield[i] = rapid.SliceOfN(rapid.Uint8Range(0, 3), 0, 5).Draw(rt, "yield")
 		}
@@ -1057,4 +1087,81 @@ func (w *c13World) analyseParallel(perSender []c13Op, pats [][]c13Op, lock bool)
 		}
 	}
 	return w.analyse(ops, lock)
+}
+
+// ---- hammer: tight loops of real parallel senders ------------------------------------------------
+
+// TestC13_Hammer keeps 4-16 senders in tight loops over the three counter-reserving functions with
+// reused buffers, so that reservations on one tunnel collide as often as the hardware allows (the
+// window between reserving a counter and writing it into the header is a few instructions wide
+// and no harness hook sits inside it). Same oracle.
+func TestC13_Hammer(t *testing.T) {
+	c13ModeNote()
+	vk.Check(t, 12, func(rt *rapid.T) {
+		lock, restore := c13SetLock(rt)
+		defer restore()
+		chacha := rapid.Bool().Draw(rt, "chacha")
+		n := rapid.IntRange(4, 16).Draw(rt, "senders")
+		rounds := rapid.IntRange(400, 2500).Draw(rt, "rounds")
+		pats := make([][]string, n)
+		for i := range pats {
+			pats[i] = rapid.SliceOfN(rapid.SampledFrom([]string{"hot", "hot", "hot", "ctl", "via"}), 1, 3).Draw(rt, "pattern")
+		}
+		demand := uint64(n * rounds)
+		sA := c13DrawStart(rt, "startA", demand)
+		w := c13NewWorld(chacha, sA, c13Start{v: 2, hs: 2}, n, false)
+		var wg sync.WaitGroup
+		gun := make(chan struct{})
+		for id := 0; id < n; id++ {
+			wg.Add(1)
+			go func() {
+				defer wg.Done()
+				nb, c := w.nbs[id], w.conns[id]
+				seg := c13TunPacket(1, 8+id).Bytes
+				scratch := make([]byte, header.Len+len(seg)+16)
+				out := make([]byte, 0, 256)
+				ad := []byte("relayed-payload")
+				<-gun
+				for r := 0; r < rounds; r++ {
+					switch pats[id][r%len(pats[id])] {
+					case "hot":
+						if p := w.f.sendInsideEncrypt(w.hA, w.ciA, seg, scratch, nb); p != nil {
+							c.pkts = append(c.pkts, append([]byte{}, p...))
+						}
+					case "ctl":
+						w.f.sendNoMetrics(header.Test, header.TestRequest, w.ciA, w.hA, w.directRemote, ad, nb, out[:0], id)
+					case "via":
+						if p, err := w.f.prepareSendVia(w.hA, w.relay, ad, nb, out[:0], false); err == nil {
+							c.pkts = append(c.pkts, append([]byte{}, p...))
+						}
+					}
+				}
+			}()
+		}
+		close(gun)
+		wg.Wait()
+		per := make([]c13Op, n)
+		for id := range per {
+			per[id] = c13Op{Kind: "hot", Segs: rounds}
+		}
+		fail, st := w.analyse(per, lock)
+		if sA.v+demand < RejectAfterMessages && st.emitted != n*rounds {
+			fail = append(fail, fmt.Sprintf("sanity: all counters stay below the ceiling but %d of %d datagrams were emitted", st.emitted, n*rounds))
+		}
+		desc := fmt.Sprintf("hammer lock=%v chacha=%v senders=%d rounds=%d startA=%s patterns=%v", lock, chacha, n, rounds, c13Rel(sA.v), pats)
+		if len(fail) > 0 {
+			if len(fail) > 12 {
+				fail = append(fail[:12], fmt.Sprintf("... %d more", len(fail)-12))
+			}
+			rt.Fatalf("C13 violated:\n  %s\ncase: %s", strings.Join(fail, "\n  "), desc)
+		}
+		lab := []string{"hammer", fmt.Sprintf("hammer-lock:%v", lock), "hammer-startA:" + sA.cls}
+		if w.gA.maxInside.Load() > 1 {
+			lab = append(lab, "hammer-overlap-in-cipher")
+		}
+		if st.sealed["A"] > 0 && int(st.refusedCounter)+st.refusedCipher["A"] > 0 {
+			lab = append(lab, "hammer-crossed-ceiling")
+		}
+		vk.Case(c13PID, desc, true, lab...)
+	})
 }
